@@ -166,7 +166,7 @@ def positive_random(draw):
 
 @st.composite
 def negative_cases(draw):
-    kind = draw(st.sampled_from(["raw", "mut-b58", "mut-segwit", "unknown-b58-version", "pk-wrong-len-for-prefix", "pk-off-curve", "pk-x>=p", "pk-hybrid", "pk-bad-prefix", "b58-no-checksum", "segwit-wrong-hrp"]))
+    kind = draw(st.sampled_from(["raw", "mut-b58", "mut-segwit", "unknown-b58-version", "pk-wrong-len-for-prefix", "pk-off-curve", "pk-x>=p", "pk-hybrid", "pk-bad-prefix", "b58-no-checksum", "segwit-wrong-hrp", "segwit-bad-proglen", "segwit-bad-proglen", "segwit-wrong-const", "segwit-bad-version", "segwit-nonzero-pad"]))
     if kind == "raw":
         return {"kind": kind, "data": draw(st.binary(max_size=100)).hex()}
     if kind in ("mut-b58", "unknown-b58-version", "b58-no-checksum"):
@@ -191,6 +191,40 @@ def negative_cases(draw):
         s = rbech.encode_addr(draw(st.sampled_from(["bc", "tb", "bcrt"])), v, prog)
         s, _ = draw(gen.edit_mutation(s, rbech.CHARSET.encode(), b"1bio B", max_edits=2))
         return {"kind": kind, "data": s.hex()}
+    if kind.startswith("segwit-"):
+        # valid characters, known HRP and a CORRECT checksum, but a BIP141/173/350 rule broken
+        hrp = draw(st.sampled_from(["bc", "tb", "bcrt"]))
+        v = draw(st.integers(0, 16))
+        if kind == "segwit-bad-proglen":
+            if v == 0 and draw(st.booleans()):
+                ln = draw(st.integers(2, 40).filter(lambda n: n not in (20, 32)))
+            else:
+                ln = draw(st.sampled_from([0, 1, 41, 42]))
+            prog = draw(st.binary(min_size=ln, max_size=ln))
+            data5 = [v] + rbech.to5(prog)
+            spec = rbech.BECH32 if v == 0 else rbech.BECH32M
+        elif kind == "segwit-wrong-const":
+            ln = draw(st.sampled_from([20, 32]))
+            prog = draw(st.binary(min_size=ln, max_size=ln))
+            data5 = [v] + rbech.to5(prog)
+            spec = rbech.BECH32M if v == 0 else rbech.BECH32
+        elif kind == "segwit-bad-version":
+            v = draw(st.integers(17, 31))
+            prog = draw(st.binary(min_size=20, max_size=20))
+            data5 = [v] + rbech.to5(prog)
+            spec = rbech.BECH32M
+        else:  # non-zero padding bits
+            ln = draw(st.sampled_from([20, 32] if v == 0 else [2, 3, 20, 32, 38]))
+            prog = draw(st.binary(min_size=ln, max_size=ln))
+            d5 = rbech.to5(prog)
+            if (ln * 8) % 5:
+                d5[-1] |= 1
+            data5 = [v] + d5
+            spec = rbech.BECH32 if v == 0 else rbech.BECH32M
+        sdata = rbech.raw_encode(hrp, data5, spec)
+        if draw(st.booleans()):
+            sdata = sdata.upper()
+        return {"kind": kind, "data": sdata.hex()}
     pt = ec.mul(draw(gen.scalars_valid()), ec.G)
     x, y = pt
     if kind == "pk-wrong-len-for-prefix":
@@ -226,5 +260,6 @@ def targets(tier):
         Target("positive-random", check_positive, strategy=lambda tier: positive_random(), budget={"quick": 3000, "thorough": 60000}),
         Target("keys", check_key, strategy=lambda tier: st.fixed_dictionaries({"k": gen.scalars_valid()}), budget={"quick": 400, "thorough": 8000}),
         Target("negative", check_negative, strategy=lambda tier: negative_cases(), budget={"quick": 5000, "thorough": 100000},
-               required=["nt:pk-wrong-len-for-prefix", "nt:unknown-b58-version", "nt:mut-segwit", "nt:mut-b58", "nt:pk-hybrid", "expect-refuse"]),
+               required=["nt:pk-wrong-len-for-prefix", "nt:unknown-b58-version", "nt:mut-segwit", "nt:mut-b58", "nt:pk-hybrid", "expect-refuse",
+                         "nt:segwit-bad-proglen", "nt:segwit-wrong-const", "nt:segwit-bad-version", "nt:segwit-nonzero-pad"]),
     ]
